@@ -36,7 +36,10 @@ def cells():
     out = []
     for s in F.STATES:
         for e in F.EVENTS:
-            for role in ROLE_OF[s]:
+            roles = ROLE_OF[s]
+            if (s, e) == ("Sta1", "Evt5"):
+                roles = ["acceptor"]     # a transport connection indication only exists on the accepting side
+            for role in roles:
                 variants = [""]
                 if (s, e) == ("Sta2", "Evt6"):
                     variants = ["version-ok", "version-bad"]
@@ -204,6 +207,14 @@ def execute(sc, ctx):
     hold = 0.25      # how long transient states are held
     big = 1.5        # timeouts that must not interfere
     peer_probe = pr.how() in ("peer", "close")
+    shared = {}
+
+    def probe_bytes():
+        if E == "Evt19":
+            return W.pdu(0x0B, b"\x00\x00\x00\x00")
+        if E == "Evt6" and sc.get("variant") == "version-bad":
+            return R.build({"pdu": "rq", "version": 2})
+        return R.build({"pdu": PDU_EVENTS[E]})
 
     def real_label():
         return "acc0" if role == "acceptor" else "req0"
@@ -225,7 +236,14 @@ def execute(sc, ctx):
             t = ctx.task_by_role("user:rel")
             if t is not None:
                 sim.stall(t, hold)
-        if not peer_probe and pr.how() != "timer" and S not in ("Sta2", "Sta5", "Sta6", "Sta7", "Sta10", "Sta11") and S != "Sta3":
+        if S == "Sta13" and peer_probe and E != "Evt17" and shared.get("peer") is not None:
+            # Sta13 lasts one reactor iteration unless data is already waiting: let the peer's probe arrive now,
+            # while the provider is still inside the action that leads to Sta13
+            pr.fired = True
+            sim.record("probe", event=E, state="Sta13", how="peer")
+            shared["peer"].send(probe_bytes())
+            ctx.sleep(0.001)
+        if not peer_probe and pr.how() not in ("timer", "real-connection") and S not in ("Sta2", "Sta5", "Sta6", "Sta7", "Sta10", "Sta11") and S != "Sta3":
             pr.produce(a, in_thread=True)
 
     def on_open(event):
@@ -241,13 +259,6 @@ def execute(sc, ctx):
 
     hh = [(evt.EVT_FSM_TRANSITION, on_transition), (evt.EVT_CONN_OPEN, on_open), (evt.EVT_REQUESTED, on_requested),
           (evt.EVT_C_ECHO, lambda e: 0)]
-
-    def probe_bytes():
-        if E == "Evt19":
-            return W.pdu(0x0B, b"\x00\x00\x00\x00")
-        if E == "Evt6" and sc.get("variant") == "version-bad":
-            return R.build({"pdu": "rq", "version": 2})
-        return R.build({"pdu": PDU_EVENTS[E]})
 
     # ------------------------------------------------------------------ Sta1: a provider that has not been asked anything
     if S == "Sta1" and E != "Evt5":
@@ -378,8 +389,8 @@ def execute(sc, ctx):
         elif S == "Sta13":
             # rejected request (called AE title): the provider enters Sta13; a PDU probe must already be in the socket buffer
             if peer_probe and E != "Evt17":
-                sim.record("probe", event=E, state="Sta13", how="peer")
-                p.send(rq_wrong + probe_bytes())
+                shared["peer"] = p          # the probe is written from the transition handler at entry into Sta13
+                p.send(rq_wrong)
             else:
                 if E == "Evt17":
                     sim.record("probe", event=E, state="Sta13", how="close")
@@ -437,6 +448,9 @@ def execute(sc, ctx):
                 ctx.wait_until(lambda: a.dul.state_machine.current_state == "Sta11", 0.5)
                 p.recv_until((6,), 0.5)
             if S == "Sta8":
+                # the association reactor must be running so that it can be stalled at entry into Sta8
+                ctx.wait_until(lambda: ctx.task_by_role("assoc:req0") is not None and a.is_established, 0.5)
+                ctx.sleep(0.003)
                 p.send(W.release_rq())
                 ctx.wait_until(lambda: a.dul.state_machine.current_state == "Sta8" or pr.fired, 0.5)
             if peer_probe:
